@@ -43,6 +43,13 @@ def cases(tier, seed):
     for tab in tabs:
         for r in ratios:
             out.append({"cls": "single", "table": tab, "p_f": r * 8000.0, "p_i": 8000.0, "ref": "mol"})
+    # initial pressure BETWEEN table rows, on the 10-psi tables and on a coarse table (500-psi rows): whatever is
+    # looked up "at initial conditions" must be interpolated, not read from a neighbouring row
+    for tab, p_f, p_i in (("T_ship_gas", 4000.0, 7703.7), ("S_zdip", 1000.0, 6033.3), ("T_ship_gas@50", 2000.0, 7700.0),
+                          ("A_kink@40", 1500.0, 7777.0)):
+        out.append({"cls": "single", "table": tab, "p_f": p_f, "p_i": p_i, "ref": "mol"})
+    for r in (ratios[1], ratios[-1]):  # the two-phase class runs the same solver through its own simulate()
+        out.append({"cls": "two", "table": "T_ship_gas", "p_f": r * 8000.0, "p_i": 8000.0, "ref": "mol"})
     for c in out:
         c["tier"] = tier
     return out
@@ -165,14 +172,14 @@ def interval_distance(u, x_lo, x_hi, xr, wr):
     return np.maximum(0.0, np.maximum(lo - u, u - hi))
 
 
-def run_rung(case, nx, nt, grid="quadratic"):
+def run_rung(case, nx, nt, grid="quadratic", probes=None):
     t = sim.time_grid(grid, nt, T_END)
     res = sim.make_reservoir(case["cls"], nx, case["p_f"], case["p_i"], case["table"])
     res.simulate(t)
     m_f, m_i = sim.frac_values(res, case["cls"], case["p_f"], None, len(t))
     draw = m_i - m_f[0]
     u = (np.asarray(res.pseudopressure) - m_f[0]) / draw
-    idx = [int(np.argmin(np.abs(t - tp))) for tp in PROBES]
+    idx = [int(np.argmin(np.abs(t - tp))) for tp in (probes or PROBES)]
     ridx = sorted(set(np.unique(np.round(np.linspace(0, 1, 41) ** 2 * (nt - 1)).astype(int)).tolist() + idx))
     te = t[ridx]
     rf = np.asarray(res.recovery_factor(), dtype=float)[ridx]
@@ -226,6 +233,19 @@ def evaluate(case):
             viol.append(V(f"convergence/cap/{key}", f"{key} = {es[-1]:.4g} at {rungs[-1]} exceeds the first-order "
                           f"cap {CAP}/nx = {CAP / rungs[-1][0]:.4g}; ladder {[round(e, 5) for e in es]}", case=case,
                           observed=es, tol=CAP / rungs[-1][0]))
+    # the same ladder on UNIFORM time grids against the exact reference (field at t >= 0.3 only: the start-up of a uniform
+    # grid is pre-asymptotic; the flux-based recovery on uniform grids carries the documented start-up artefact)
+    LU = [run_rung(case, nx, nt, grid="uniform", probes=[0.3, 1.0, 3.0]) for nx, nt in rungs]
+    eu = [r["E_field"] for r in LU]
+    # (falling diffusivity at large drawdown crosses zero error on the coarsest rung: the ratio is demanded at the last
+    # refinement only; measured there <= 0.78, and E nx <= 1.35 ideal / 0.41 single-phase)
+    if eu[-1] > max(0.85 * eu[-2], FLOOR):
+        viol.append(V("convergence/uniform-grid/ratio", f"on uniform time grids the field error does not shrink at the last "
+                      f"refinement: {eu[-2]:.4g} at {rungs[-2]} -> {eu[-1]:.4g} at {rungs[-1]}; ladder {[round(e, 5) for e in eu]}",
+                      case=case, observed=eu, tol=0.85))
+    if eu[-1] > 2.5 / rungs[-1][0]:
+        viol.append(V("convergence/uniform-grid/cap", f"on uniform time grids the field error {eu[-1]:.4g} at {rungs[-1]} exceeds "
+                      f"2.5/nx; ladder {[round(e, 5) for e in eu]}", case=case, observed=eu, tol=2.5 / rungs[-1][0]))
     late = late_ladder(case, rungs)
     if late:
         es = [abs(e) for e in late["log_ratio"]]
@@ -243,7 +263,7 @@ def evaluate(case):
     mv, mix_worst, mix_states = mixed_refinement(case, case["tier"])
     viol += mv
     nsteps = sum(nt for _, nt in rungs) * (2 if late else 1) + mix_states
-    return {"violations": viol, "ladder": L, "late": late, "mix_worst": mix_worst, "states": nsteps, "transitions": nsteps - len(rungs),
+    return {"violations": viol, "ladder": L, "late": late, "mix_worst": mix_worst, "uniform_ladder": eu, "states": nsteps, "transitions": nsteps - len(rungs),
             "outcome": "ratio<=%.1f" % (np.ceil(10 * max((L[k + 1]["E_rf"] / max(L[k]["E_rf"], 1e-300))
                                                          for k in range(len(L) - 1))) / 10)}
 
